@@ -7,3 +7,5 @@ import Dtr.Props.C15
 #print axioms Dtr.C15_next_row
 #print axioms Dtr.C15_static_eq_dynamic
 #print axioms Dtr.C15_model_is_a_function
+#print axioms Dtr.C15_lock_step_behind_error
+#print axioms Dtr.rngAfter_mono
